@@ -563,6 +563,27 @@ def normalise_review(syn, table):
     return out
 
 
+def borrow(chk, facts, module, keep, rule_texts):
+    """run the rules of another property's module and keep only the obligations whose key starts with one of `keep` (they are a
+    necessary condition of this property as well); everything else the other module registered is dropped again"""
+    n0 = len(chk.obligations)
+    rules0, counts0, notes0 = dict(chk.rules), dict(chk.counts), list(chk.notes)
+    samples0, assumptions0 = list(chk.samples), list(chk.assumptions)
+    module.run(chk, facts)
+    kept = [o for o in chk.obligations[n0:] if any(o["key"].startswith(k) for k in keep)]
+    chk.obligations = chk.obligations[:n0] + kept
+    chk.rules = rules0
+    chk.counts.clear()
+    chk.counts.update(counts0)
+    for r, text in rule_texts.items():
+        chk.rules[r] = text
+        chk.counts[r] = len([o for o in kept if o["key"].startswith(r + "|")])
+    chk.notes[:] = notes0
+    chk.samples[:] = samples0
+    chk.assumptions[:] = assumptions0
+    return kept
+
+
 def option_match_as_iflet(m):
     """`match e { Some(p) => A, None | _ => B }` (either order) as the equivalent `if let Some(p) = e { A } else { B }` node; else None"""
     if not isinstance(m, dict) or m.get("k") != "match" or len(m.get("arms", [])) != 2 or any(a.get("guard") for a in m["arms"]):
